@@ -8,7 +8,7 @@ class FilteredConfigParser(ObjectProxy):
   filters out entries for particular, unwanted species"""
 
 
-  def __init__(self, config_parser, exclude = [], include = []):
+  def __init__(self, config_parser, exclude = None, include = None):
     """Wrap existing ConfigParser so that it excludes entries
     for unwanted species.
 
@@ -24,19 +24,22 @@ class FilteredConfigParser(ObjectProxy):
     if exclude and include:
       raise ValueError("Both exclude and include arguments specified. Only one can be used at one time.")
 
-    if exclude:
-      self._species_list = exclude
-      self._exclude_flag = True
+    # The filter settings are kept on this proxy (wrapt stores attributes prefixed with _self_ on the proxy
+    # rather than on the wrapped object) so that several filtered views of one ConfigParser are independent.
+    if include is not None and not exclude:
+      self._self_species_list = list(include)
+      self._self_exclude_flag = False
     else:
-      self._species_list = include
-      self._exclude_flag = False
-    
+      # An empty (or missing) exclude list excludes nothing.
+      self._self_species_list = list(exclude or [])
+      self._self_exclude_flag = True
+
   def _check_tuple(self, check_tuple):
     for v in check_tuple:
-      v_in = v in self._species_list
-      if self._exclude_flag and v_in:
+      v_in = v in self._self_species_list
+      if self._self_exclude_flag and v_in:
         return False
-      elif not self._exclude_flag and not v_in:
+      elif not self._self_exclude_flag and not v_in:
         return False
     return True
 
